@@ -13,6 +13,9 @@ SquaredL2Loss with weights), complex data, block arrays; the real scico objects 
  (c) conj_prox against independently known proxes of conjugates (Moreau);
  (d) SquaredL2Loss.prox: diagonal A -> exact residual of (I + 2 a lam A^H W A)x = v + 2 a lam A^H W y
      at Qc inside Coq; dense non-diagonal A -> CG branch, residual <= configured tol * ||rhs||.
+ (e) history stream: a SquaredL2Loss (dense / diagonal A, real / complex, weights) is USED (prox and/or
+     hessian) and re-scaled (L*c, c*L, L/c, (c*L)*d, copy + set_scale) in both orders; every derived
+     object and the original must solve the system / have the Hessian / the value of ITS OWN scale.
 """
 from __future__ import annotations
 
@@ -573,6 +576,124 @@ def check_sql2(ctx, rng, diag_items):
         ctx.violation("SquaredL2Loss.prox", r[0], case, observed=r[1])
 
 
+# ------------------------------------------------------------------ history stream
+# SquaredL2Loss objects are re-scaled by copy(self) + set_scale: anything the original has
+# materialised (e.g. a cached Hessian operator) must not leak its OLD scale into the derived
+# object, whatever the order of use and derivation.
+
+def gen_history(rng):
+    cplx = rng.random() < 0.5
+    n = rng.choice([2, 3, 4])
+    sp = {"k": "arr", "shape": [n], "cplx": cplx}
+    cls = "diag" if rng.random() < 0.2 else "matrix"
+    e = {"t": "sql2", "cls": cls, "y": enc(rand_array(rng, (n,), cplx)), "scale": rng.choice([0.25, 0.5, 1.0, 2.0]),
+         "op": gen_op(rng, sp, cls), "tol": rng.choice([1e-5, 1e-8]),
+         "w": enc(np.abs(rand_array(rng, (n,), False)) + rng.choice([0.0, 0.25]))}
+    cs = [0.25, 0.5, 2.0, 3.0, 4.0]
+    ops = [["mul", rng.choice(cs)], ["rmul", rng.choice(cs)], ["div", rng.choice(cs)],
+           ["mulmul", rng.choice(cs), rng.choice(cs)], ["setscale", rng.choice([0.125, 0.75, 3.0, 5.0])]]
+    rng.shuffle(ops)
+    return {"history": True, "e": e, "space": sp, "lam": rng.choice([0.25, 0.5, 1.0, 2.0]),
+            "v": enc(rand_array(rng, (n,), cplx)), "u": enc(rand_array(rng, (n,), cplx)),
+            "x": enc(rand_array(rng, (n,), cplx)),
+            "order": rng.choice(["use_first", "use_first", "derive_first"]),
+            "use": rng.choice(["prox", "hessian", "both"]), "ops": ops}
+
+
+def run_history(case):
+    """-> (list of (unit, what, detail), list of diag Coq items).  Deterministic in the case."""
+    from copy import copy
+    e, sp, lam = case["e"], case["space"], case["lam"]
+    v, u, x = dec(case["v"]), dec(case["u"]), dec(case["x"])
+    n = v.size
+    y, w = dec(e["y"]), dec(e["w"])
+    M = np.diag(dec(e["op"])) if e["cls"] == "diag" else dec(e["op"])
+    tol = e["tol"] if e["cls"] == "matrix" else 1e-12
+    bad, diag_items = [], []
+
+    def use(obj):
+        if case["use"] in ("prox", "both"):
+            obj.prox(to_snp(v), lam)
+        if case["use"] in ("hessian", "both"):
+            obj.hessian(to_snp(u))
+
+    def check(obj, alpha, label):
+        sc = float(obj.scale)
+        if abs(sc - alpha) > 1e-12 * (1 + abs(alpha)):
+            bad.append(("SquaredL2Loss.scale", "scale of a re-scaled loss is wrong", {"object": label, "expected": alpha, "observed": sc}))
+        out = to_np(obj.prox(to_snp(v), lam))
+        c = 2 * alpha * lam
+        lhs = out + c * (M.conj().T @ (w * (M @ out)))
+        rhs = v + c * (M.conj().T @ (w * y))
+        res = float(np.linalg.norm(lhs - rhs))
+        bound = tol * float(np.linalg.norm(rhs)) * (1 + 1e-6) + 1e-12
+        if not res <= bound:
+            bad.append(("SquaredL2Loss.prox", "after a use/re-scale history, prox does not solve (I + 2 a lam A^H W A) x = "
+                        "v + 2 a lam A^H W y for the object's own scale a", {"object": label, "scale": alpha, "residual": res, "bound": bound, "result": enc(out)}))
+        if e["cls"] == "diag":
+            a = dec(e["op"])
+            z = lambda t: [float(np.real(t)), float(np.imag(t))]
+            rows = [(z(v[k]) + z(a[k]) + [float(w[k])] + z(y[k]), z(out[k])) for k in range(n)]
+            diag_items.append((dict(case, label=label), f"({qc(alpha)}, {qc(lam)}, " + coq_list(
+                [f"({coq_list([qc(t) for t in i])}, {coq_list([qlit(t) for t in o])})" for i, o in rows]) + ")"))
+        hu = np.asarray(obj.hessian(to_snp(u)))
+        href = 2 * alpha * (M.conj().T @ (w * (M @ u)))
+        if not close(hu, href, 1e-9):
+            bad.append(("SquaredL2Loss.hessian", "after a use/re-scale history, hessian differs from 2 a A^H W A for the "
+                        "object's own scale a", {"object": label, "scale": alpha, "expected": enc(href), "observed": enc(hu)}))
+        val = float(obj(to_snp(x)))
+        vref = alpha * float(np.sum(w * np.abs(y - M @ x) ** 2))
+        if abs(val - vref) > 1e-9 * (1 + abs(vref)):
+            bad.append(("Functional.__call__", "after a use/re-scale history, the value differs from a ||Ax - y||_W^2 for "
+                        "the object's own scale a", {"object": label, "scale": alpha, "expected": vref, "observed": val}))
+
+    L = build(e, sp)
+    a0 = e["scale"]
+    if case["order"] == "use_first":
+        use(L)
+    derived = []
+    for op in case["ops"]:
+        k = op[0]
+        if k == "mul":
+            derived.append((L * op[1], a0 * op[1], f"L*{op[1]}"))
+        elif k == "rmul":
+            derived.append((op[1] * L, a0 * op[1], f"{op[1]}*L"))
+        elif k == "div":
+            derived.append((L / op[1], a0 / op[1], f"L/{op[1]}"))
+        elif k == "mulmul":
+            D1 = op[1] * L
+            use(D1)                      # the intermediate object is used before it is re-scaled
+            derived.append((D1 * op[2], a0 * op[1] * op[2], f"({op[1]}*L)*{op[2]}"))
+            derived.append((D1, a0 * op[1], f"{op[1]}*L (after deriving from it)"))
+        else:
+            D = copy(L)
+            D.set_scale(op[1])
+            derived.append((D, op[1], f"copy(L).set_scale({op[1]})"))
+    if case["order"] == "derive_first":
+        use(L)
+    for D, alpha, label in derived:
+        check(D, alpha, label)
+    check(L, a0, "the original L (after deriving re-scaled losses from it)")
+    for D, alpha, label in derived[:2]:
+        check(D, alpha, label + " (checked again after the original was used)")
+    return bad, diag_items
+
+
+def check_history(ctx, rng, diag_items):
+    case = gen_history(rng)
+    ctx.count("history-" + case["e"]["cls"] + ("-complex" if case["space"]["cplx"] else "-real") + "-" + case["order"], case)
+    try:
+        bad, items = run_history(case)
+    except Exception as ex:
+        ctx.violation("SquaredL2Loss history", f"use/re-scale sequence raises {type(ex).__name__}", case, observed=str(ex)[:300])
+        return
+    diag_items += items
+    for unit, what, det in bad:
+        ctx.violation(unit, what, case, expected="re-scaled loss behaves as a freshly constructed loss with its own scale",
+                      observed=det, oracle="normal equations / 2 a A^H W A / a ||Ax-y||_W^2 for the derived scale")
+
+
+
 def gen_case(rng, maxdepth):
     sp = gen_space(rng)
     e = gen_expr(rng, sp, rng.randint(1, maxdepth))
@@ -630,6 +751,8 @@ def run(ctx: Ctx):
         check_conj(ctx, rng)
     for _ in range(ctx.n(60, 800)):
         check_sql2(ctx, rng, diag_items)
+    for _ in range(ctx.n(40, 600)):
+        check_history(ctx, rng, diag_items)
     for case, txt in run_flags(flag_items):
         ctx.violation("capability flags", "has_eval/has_prox or availability differs from the flag model "
                       "(C08.Exec.flag_ok)", dict(case, features=features(case["e"])),
@@ -646,6 +769,10 @@ def replay(ctx: Ctx, rec):
     before = len(ctx.violations) + len(ctx.known_hits)
     sub = Ctx(ctx.pid, ctx.tier, ctx.seed)
     sub.known = []
+    if inp.get("history"):
+        case = {k: v for k, v in inp.items() if k != "label"}
+        bad, items = run_history(case)
+        return not bad and not run_diag(items, "C08_replay")
     if "e" in inp and "v" not in inp:
         items = []
         check_expr(sub, rng, {k: inp[k] for k in ("e", "space", "lam")}, items)
